@@ -13,6 +13,12 @@ from . import tlc as _tlc
 VERIF = os.path.dirname(os.path.dirname(os.path.abspath(__file__)))
 EVIDENCE_DIR = os.path.join(VERIF, 'evidence')
 REPLAY_DIR = os.path.join(VERIF, 'replay')
+# A run against a scratch tree (FALCON_ROOT=<mutant copy or worktree>) is an experiment on the machinery, not evidence
+# about /repo: keep it out of the committed evidence directory (replay/ is git-ignored).
+if os.environ.get('VERIF_EVIDENCE_DIR'):
+    EVIDENCE_DIR = os.environ['VERIF_EVIDENCE_DIR']
+elif os.path.realpath(os.environ.get('FALCON_ROOT', '/repo')) != os.path.realpath('/repo'):
+    EVIDENCE_DIR = os.path.join(REPLAY_DIR, 'evidence-scratch')
 FINDINGS = os.path.join(VERIF, 'KNOWN_FINDINGS.jsonl')
 
 
